@@ -443,6 +443,26 @@ def oracle_matrix(case, rec):
                         "matrix_eca_%s_holds_pairwise_values" % win, 1e-12,
                         True)
 
+    if method == "ECA":
+        # symmetrisations defined for ES strengths only ('symmetric' adds,
+        # 'antisym' subtracts the two directions) are not rates: the call is
+        # refused - or, wherever a matrix comes back, it holds rates
+        for sym in ("symmetric", "antisym"):
+            for win in ("symmetric", "advanced", "retarded"):
+                try:
+                    M_ = _quiet(es.event_series_analysis, method="ECA",
+                                window_type=win, symmetrization=sym)
+                except Exception:  # pylint: disable=broad-except
+                    rec.label("eca_refuses_" + sym)
+                    continue
+                M_ = np.asarray(M_, dtype=float)
+                off = M_[~np.eye(len(M_), dtype=bool)]
+                off = off[~np.isnan(off)]
+                rec.check(bool(((off >= -1e-12) & (off <= 1 + 1e-12)).all()),
+                          "matrix_eca_accepts_%s_rates_outside_unit_interval"
+                          % sym, "window %s: min %s max %s" % (
+                              win, off.min() if off.size else None,
+                              off.max() if off.size else None))
     # exchange of sequences = simultaneous permutation of rows and columns
     # (ES: only without lag, because the lag belongs to the later column)
     keys = list(mats)
